@@ -100,10 +100,15 @@ fn glyph_class_list_member(parser: &mut Parser, recovery: TokenSet) -> bool {
     let looks_like_range = parser.matches(1, Kind::Hyphen)
         || (parser.matches(0, Kind::Backslash) && parser.matches(2, Kind::Hyphen));
     if looks_like_range {
+        // A hyphen after the next token does not make that token the start of
+        // a range: in `[a] - 3` the next token is the closing bracket. Report
+        // progress only if the range consumed something, or our caller (which
+        // repeats while we return true) would never stop.
+        let start = parser.nth_range(0).start;
         parser.in_node(AstKind::GlyphRange, |parser| {
             glyph_range(parser, recovery.add(Kind::RSquare));
         });
-        true
+        parser.nth_range(0).start != start
     } else {
         eat_glyph_name_like(parser)
     }
